@@ -336,7 +336,7 @@ pub const UNWRITABLE: &[(&str, &str)] = &[
     ("NameTree<T>", "ObjectWrite::to_primitive is todo!() (object/types.rs)"),
     ("NameDictionary with any name tree", "derived writer reaches NameTree::to_primitive = todo!()"),
     ("Function", "ObjectWrite::to_primitive is unimplemented!() (object/function.rs)"),
-    ("ColorSpace::{DeviceGray, DeviceN, CalGray, CalRGB, CalCMYK, Separation, Icc, Pattern, Named, Other}", "writer handles DeviceRGB, DeviceCMYK, Indexed only; everything else is unimplemented!() (object/color.rs)"),
+    ("ColorSpace::{DeviceN, Separation}", "the writer needs a writer for Function, which is unimplemented!() (object/color.rs); all other colour spaces are written since /repo 0e263fe"),
     ("Font with Subtype Type3 / MMType1 (FontData::Other)", "writer bails with \"unimplemented\" (font.rs)"),
     ("OutlineItem", "derives Object only, no ObjectWrite"),
     ("CryptDict / CryptFilter", "derive Object only, no ObjectWrite"),
